@@ -4,6 +4,7 @@ package main
 // that are checked Houdini-style (never trusted).
 
 import (
+	"go/ast"
 	"fmt"
 	"go/token"
 	"go/types"
@@ -277,6 +278,14 @@ func (f *Frame) backEdge(from, to *ssa.BasicBlock, cond Term) {
 					env.prev[phi.Comment] = SpecVal{T: hv.T, Typ: phi.Type(), V: hv}
 				}
 			}
+		}
+		env.fallbackPrev = func(name string) (SpecVal, bool) {
+			cand := f.renamedLoopVar(li, rt.headPh)
+			if cand == nil {
+				return SpecVal{}, false
+			}
+			hv := rt.headPh[cand]
+			return SpecVal{T: hv.T, Typ: cand.Type(), V: hv}, true
 		}
 		t, err := env.evalBool(stp.Expr)
 		if err != nil {
@@ -747,6 +756,18 @@ func (f *Frame) loopEnv(li *loopInfo, phis map[*ssa.Phi]Value, st *State) *SpecE
 		}
 		env.vars[nm] = SpecVal{T: pv.T, Typ: phi.Type(), V: pv}
 	}
+	// A loop clause that names a variable which no longer exists, while exactly one loop-carried variable of this loop is
+	// named by no clause of the loop: the variable was renamed (for i := … became for k := …). Bind the old name to it, so
+	// that a harmless rename does not make the contract stale; the substitution is recorded in the evidence notes.
+	env.fallback = func(name string) (SpecVal, bool) {
+		cand := f.renamedLoopVar(li, phis)
+		if cand == nil {
+			return SpecVal{}, false
+		}
+		pv := phis[cand]
+		f.e.note(fmt.Sprintf("loop %d of %s: clause names %q, which is not in scope; bound to the only loop variable no clause names, %q (renamed variable)", li.ordinal, f.fn.Name(), name, cand.Comment))
+		return SpecVal{T: pv.T, Typ: cand.Type(), V: pv}, true
+	}
 	return env
 }
 
@@ -874,4 +895,51 @@ func (f *Frame) bindLocal(env *SpecEnv, name string, v ssa.Value, st *State, kee
 			env.vars[plain] = SpecVal{T: e.loadAddr(st, a), Typ: pt.Elem()}
 		}
 	}
+}
+
+// renamedLoopVar: the only named loop-carried variable of loop li that no clause of the loop mentions (nil if there is
+// none or more than one).
+func (f *Frame) renamedLoopVar(li *loopInfo, phis map[*ssa.Phi]Value) *ssa.Phi {
+	if f.parent != nil || f.e.contract == nil {
+		return nil
+	}
+	ls := f.e.contract.Loops[li.ordinal]
+	if ls == nil {
+		return nil
+	}
+	mentioned := map[string]bool{}
+	collect := func(cl Clause) {
+		ast.Inspect(cl.Expr, func(n ast.Node) bool {
+			if id, ok := n.(*ast.Ident); ok {
+				mentioned[id.Name] = true
+			}
+			return true
+		})
+	}
+	for _, c := range ls.Invariants {
+		collect(c)
+	}
+	for _, c := range ls.Steps {
+		collect(c)
+	}
+	if ls.Decreases != nil {
+		collect(*ls.Decreases)
+	}
+	var cand *ssa.Phi
+	n := 0
+	for _, phi := range li.phis {
+		nm := phi.Comment
+		if nm == "" || nm == "rangeindex" || mentioned[nm] {
+			continue
+		}
+		if _, ok := phis[phi]; !ok {
+			continue
+		}
+		cand = phi
+		n++
+	}
+	if n != 1 {
+		return nil
+	}
+	return cand
 }
